@@ -132,6 +132,7 @@ def seed_sim():
         code_cell("alpha = load_table('one')\nbeta = alpha.filter(col > 3)\nbeta.plot()\n", id='s2'),
         md_cell("x\r\ny\x0cz\u2028w\nplain line after the separators\nlast line\n", id='s3'),
         code_cell("<<<<<<< local\n\\ No newline at end of file\nnaïve café ☃", id='s4'),
+        raw_cell("classic mac line\rsecond line\r", id='s5'),       # ends with a bare CR: appending a line break turns it into a CRLF
     ]
     return notebook(cells, 5, {})
 
